@@ -17,6 +17,22 @@ CHECKS = {
          "Exploration: every n in 0..9999, every 3-digit group value in every group position, boundary shapes and digit-biased random n < 10^12 are spelled by independent per-language spellers (primary spelling + the variant table of DESIGN.md section 4, in six sentence contexts) and the real text2digits / replace_numbers_in_text / find_numbers results are compared with decimal(n). Held on the executions produced, not a proof over 10^12 integers.",
          "Trusted: the spellers in harness/src/spell (written from grammar rules, not from the library tables); filler words self-checked against the running library; known finding K1 (de 'eine Million') attributed only through the counterfactual token repair eine->ein.",
          "5 C01"),
+ "C04": (True, "reference-model runtime monitor (independent ordinal spellers); thorough tier enumerates every rank of the stated range",
+         "Exploration: every rank 1..10000 (quick) or every rank of the stated range 1..10^6, es/pt 1..1999 (thorough) in every gender/number inflection and hyphen/space or glued/split variant is spelled by independent ordinal spellers; validate, rewrite (six sentence contexts) and the reported occurrence (text, value, ordinal flag) are compared with decimal(n)+marker.",
+         "Trusted: the ordinal conventions of DESIGN.md section 4 (systematic Italian -esimo forms, Spanish decimotercero.., no apocopated primer/tercer). Known findings K2 (es bare 'segundo(s)') and K3 (it bare 'secondi') are matched on the exact phrase only.",
+         "5 C04"),
+ "C05": (True, "reference-model runtime monitor (integer speller x fraction speller), conditioned on the integer part's own round-trip",
+         "Exploration: integers from the compositional sampler below 10^9 x every 1- and 2-digit fraction string, every leading/inner/trailing-zero pattern of length 3..6 and random ones, in six sentence contexts; rewrite and the single occurrence (text n<mark>d, value, not ordinal) compared with the expected decimal; both negative clauses (separator with no number before it / nothing usable after it) checked.",
+         "Trusted: fraction dictation conventions of DESIGN.md section 4; cases whose integer part fails C01 are skipped and counted.",
+         "5 C05"),
+ "C08": (True, "exhaustive pair sweep + dictation sweep observed through the real rewrite API, judged against a morpheme-sequence index built from the spellers",
+         "Exploration, exhaustive over the stated pair domain: every (a,b) in [0,99]^2 x {space, conjunction} x 7 languages; allowed outcomes are both numbers in order, the zero-prefixed form, or the digits of the one number whose morpheme sequence equals morphemes(a)+morphemes(b). Dictation: every digit string up to length 4 (quick) / 6 (thorough) plus random ones up to length 8 against the grouping rule of the statement.",
+         "Trusted: morpheme segmentation of the spellers; the conjunction is ignored when comparing morpheme sequences; texts flagged by the ambiguity annotator are skipped and counted.",
+         "5 C08"),
+ "C16": (True, "reference-model runtime monitor (zero words + speller), conditioned on C01 for the same n",
+         "Exploration: k in 1..6 zero words before the spelling of n (compositional sampler within [1,10^9) plus random n) in six contexts must validate and rewrite to '0'^k ++ decimal(n) as one numeral; 'n zero' must give 'n 0' and fail validation; the lone zero word gives 0.",
+         "Trusted: C01 speller; numbers that fail the C01 round-trip are skipped and counted (C01 owns them).",
+         "5 C16"),
 }
 NOT_BUILT_REASON = "monitor designed in DESIGN.md section 5 but not built yet in this session; it will be claimed once its check exists"
 
